@@ -39,7 +39,9 @@ RULE = (
     "(natural or shuffled, couplings given or not, one local variable left out, one unused variable), main MDA "
     "(MDAChain with inner Jacobi/Gauss-Seidel/Newton-Raphson, or these directly on one-SCC systems), "
     "normalize_constraints in {F,T} (both built for every system), IDF(start_at_equilibrium=True) from consistent or "
-    "inconsistent initial coupling targets (70% of the systems), IDF(n_processes=2, threads) (25%), MDA settings "
+    "inconsistent initial coupling targets (70% of the systems), IDF(n_processes=2, threads) (25%), a second MDF with "
+    "MDAJacobi / MDAGaussSeidel as non-chained main MDA on graphs with weak couplings and a space holding all "
+    "couplings (75% of those systems), MDA settings "
     "use_lu_fact / warm_start, 3 design points (current/interior/on bounds) "
     "plus one off-equilibrium point; optimisation cases: linear couplings + strictly convex quadratic objective, "
     "convex constraints, SLSQP per formulation against an independent reference optimum. A case is distinct by "
@@ -290,6 +292,7 @@ def gen_pointwise_case(rng, force=None):
                    "parallel": bool(force.get("parallel", rng.random() < 0.25)),
                    "parallel_normalize": bool(rng.random() < 0.5)}
     mda_options = {"use_lu_fact": bool(rng.random() < 0.3), "warm_start": bool(rng.random() < 0.3)}
+    mdf_direct_mda = force.get("mdf_direct_mda", _pick(rng, ["MDAJacobi", "MDAGaussSeidel", "MDAJacobi", None]))
     # the coupling bounds must contain y*(x0) (IDF writes it into the design space when started at equilibrium);
     # "consistent": the user already gives y*(x0) as initial coupling values
     fixed = {k: np.array(v, dtype=float) for k, v in space["fixed"].items()}
@@ -301,7 +304,7 @@ def gen_pointwise_case(rng, force=None):
         space["bounds"][nm] = [lb.tolist(), ub.tolist()]
         if idf_options["coupling_start"] == "consistent":
             space["current"][nm] = sol0[nm].tolist()
-    return {"kind": "pointwise", "idf_options": idf_options, "mda_options": mda_options, "family": family, "spec": spec, "groups": groups, "order": order, "space": space,
+    return {"kind": "pointwise", "idf_options": idf_options, "mda_options": mda_options, "mdf_direct_mda": mdf_direct_mda, "family": family, "spec": spec, "groups": groups, "order": order, "space": space,
             "objective": objective, "constraints": constraints, "mda": gen_mda(rng, grouping, force),
             "points": points, "perturb": perturb, "sparse": bool(force.get("sparse", rng.random() < 0.15)),
             "degenerate": bool(degenerate)}
@@ -390,7 +393,8 @@ def case_signature(case):
             tuple((len(c["names"]), c["names"][0][0], c["type"], c["positive"], c["value"] == 0.0)
                   for c in case["constraints"]),
             tuple(sorted(system.sizes[c] for c in system.read_couplings)), case["degenerate"],
-            tuple(sorted(case.get("idf_options", {}).items())), tuple(sorted(case.get("mda_options", {}).items())))
+            tuple(sorted(case.get("idf_options", {}).items())), tuple(sorted(case.get("mda_options", {}).items())),
+            case.get("mdf_direct_mda"))
 
 
 # =========================================================================== building the real objects
@@ -448,7 +452,8 @@ class Ctx:
         return -1.0 if (f["role"] == "constraint" and f["positive"]) else 1.0
 
 
-def formulation_args(ctx, which, normalize=None, space_names=None, start_at_equilibrium=False, n_processes=1):
+def formulation_args(ctx, which, normalize=None, space_names=None, start_at_equilibrium=False, n_processes=1,
+                     direct_mda=None):
     """(class name, fresh disciplines, objective, fresh design space, settings) of one formulation of the case."""
     case = ctx.case
     sp = case["space"]
@@ -459,6 +464,13 @@ def formulation_args(ctx, which, normalize=None, space_names=None, start_at_equi
             space_names = [n for n in sp["order"] if n not in ctx.couplings]
     ds = ctx.design_space(space_names)
     objective = case["objective"][0] if len(case["objective"]) == 1 else list(case["objective"])
+    if which == "MDF" and direct_mda:
+        # a non-chained main MDA on a graph with weak couplings; disciplines listed along the data flow (listing them
+        # against it is the C06 finding for Gauss-Seidel); the given space contains ALL couplings, strong and weak
+        settings = dict(MDA_SETTINGS)
+        settings.update(case.get("mda_options", {}))
+        return (which, ctx.disciplines(order=ctx.grouping.data_flow_order()), objective, ctx.design_space(list(sp["order"])),
+                {"main_mda_name": direct_mda, "main_mda_settings": settings})
     if which == "MDF":
         mda = case["mda"]
         settings = dict(MDA_SETTINGS)
@@ -571,6 +583,9 @@ def run_pointwise_case(case, rep):
         wanted.append(("IDF[par]", "IDF", {"normalize": norm_of["IDF[par]"], "n_processes": 2}))
     if not grouping.has_strong_coupling():
         wanted.append(("DisciplinaryOpt", "DisciplinaryOpt", {}))
+    direct = case.get("mdf_direct_mda")
+    if direct and graph_class(ctx) in ("feed_forward", "multi_scc"):
+        wanted.append(("MDF[direct]", "MDF", {"direct_mda": direct}))
     for key, which, kw in wanted:
         try:
             forms[key] = build_formulation(ctx, which, **kw)
@@ -656,6 +671,10 @@ def run_pointwise_case(case, rep):
         check_start_at_equilibrium(case, ctx, forms["IDF[sae]"], rep, sizes)
     if "IDF[par]" in forms:
         rep.count("idf_parallel_cases")
+    if "MDF[direct]" in forms:
+        rep.count("mdf_non_chained_mda_with_weak_couplings")
+        rep.count(f"mdf_non_chained_mda_with_weak_couplings_{direct}")
+        rep.count(f"mdf_non_chained_mda_with_weak_couplings_{graph_class(ctx)}")
 
     # ---------------------------------------------------------------- per design point
     jac_broken = set()
@@ -1122,6 +1141,15 @@ def directed_cases():
             out.append(gen_pointwise_case(mk(170 + k), dict(extra, family=fam, self_coupled=False, degenerate=False,
                                                             merge=False, start_at_equilibrium=True, coupling_start=start,
                                                             parallel=bool(k % 2), mda=chain_j)))
+            k += 1
+    # 7. MDF with a non-chained main MDA on graphs with weak couplings, design space containing all the couplings
+    k = 0
+    for fam, extra in (("std", {"graph": "tail_head", "n": 4}), ("std", {"graph": "two_scc", "n": 3}),
+                       ("std", {"graph": "two_scc", "n": 4}), ("dag", {"n": 3})):
+        for main in ("MDAJacobi", "MDAGaussSeidel"):
+            out.append(gen_pointwise_case(mk(190 + k), dict(extra, family=fam, self_coupled=False, degenerate=False,
+                                                            merge=False, mdf_direct_mda=main, parallel=False,
+                                                            start_at_equilibrium=False, mda=chain_j)))
             k += 1
     return out
 
